@@ -326,7 +326,11 @@ def build_world(ctx: Ctx, loop, world_kw=None, connect_order=None):
             world.sim_config[sid] = {"vscripted": True}
         if sims[sid].get("api_version"):
             world.sim_config[sid]["api_version"] = sims[sid]["api_version"]
-        fac = world.start(sid, sim_id=sid)
+        import contextlib
+        import io
+
+        with contextlib.redirect_stdout(io.StringIO()):  # (mosaik_api_v3 print()s a deprecation notice for old signatures)
+            fac = world.start(sid, sim_id=sid)
         ents[sid] = fac.M.create(sims[sid].get("nent", 1))
 
     def visit(path):
